@@ -2,6 +2,7 @@
 //! fn: pallas_crypto::kes::summed_kes::Sum{1..7}KesSig::{from_bytes,to_bytes,SIZE} (and Sum0KesSig underneath)
 //! fn: pallas_crypto::kes::summed_kes::Sum{1..7}Kes::{from_bytes,get_period,update,as_bytes,SIZE} (update only at the last period: update_slice's first test)
 //! stub: std::fmt::format -> empty String
+//! stub: cryptoxide Blake2b::{new,input,result} -> the C10 stream probe, on the key_last_period harnesses only: the hashing code is statically linked into update_slice's other arms (never executed at the last period) and the real compression function exhausts goto-instrument (> 28 GB)
 //! outside: everything that runs ed25519-dalek or Blake2b on symbolic data: keygen, sign, verify at / off the signing period, public-key stability, successful update() (periods below 2^d - 1), to_pk, and the whole compact variant (Sum*CompactKesSig::from_bytes decompresses an Edwards point). dalek types have private fields and cannot be stubbed. This is most of the property.
 //! outside: key buffers whose period word is >= 2^d (not producible by keygen/update; from_bytes does not validate the word, and update() on 0xFFFFFFFF overflows `period + 1`)
 use pallas_crypto::kes::errors::Error;
@@ -37,7 +38,7 @@ sig_roundtrip!(c12_q_sig_roundtrip_2, Sum2KesSig, 2);
 sig_roundtrip!(c12_t_sig_roundtrip_3, Sum3KesSig, 3);
 sig_roundtrip!(c12_t_sig_roundtrip_4, Sum4KesSig, 4);
 sig_roundtrip!(c12_t_sig_roundtrip_5, Sum5KesSig, 5);
-sig_roundtrip!(c12_q_sig_roundtrip_6, Sum6KesSig, 6);
+sig_roundtrip!(c12_t_sig_roundtrip_6, Sum6KesSig, 6);
 sig_roundtrip!(c12_t_sig_roundtrip_7, Sum7KesSig, 7);
 
 macro_rules! sig_len {
@@ -81,6 +82,9 @@ macro_rules! key_last_period {
         #[kani::proof]
         #[kani::unwind(3)]
         #[kani::stub(std::fmt::format, crate::stubs::fmt_format_stub)]
+        #[kani::stub(cryptoxide::blake2b::Blake2b::new, crate::c10::probe::new)]
+        #[kani::stub(<cryptoxide::blake2b::Blake2b as cryptoxide::digest::Digest>::input, crate::c10::probe::input)]
+        #[kani::stub(<cryptoxide::blake2b::Blake2b as cryptoxide::digest::Digest>::result, crate::c10::probe::result)]
         fn $name() {
             const SIZE: usize = 32 + $depth * 32 + $depth * 64;
             const LAST: u32 = (1u32 << $depth) - 1;
@@ -119,11 +123,11 @@ macro_rules! key_last_period {
 }
 // bound: key buffer of SIZE symbolic bytes + period word = 2^d - 1 (concrete), compared at a symbolic index; depth 1..=7; unwind 3
 key_last_period!(c12_q_key_last_period_1, Sum1Kes, 1);
-key_last_period!(c12_t_key_last_period_2, Sum2Kes, 2);
+key_last_period!(c12_q_key_last_period_2, Sum2Kes, 2);
 key_last_period!(c12_t_key_last_period_3, Sum3Kes, 3);
 key_last_period!(c12_t_key_last_period_4, Sum4Kes, 4);
 key_last_period!(c12_t_key_last_period_5, Sum5Kes, 5);
-key_last_period!(c12_q_key_last_period_6, Sum6Kes, 6);
+key_last_period!(c12_t_key_last_period_6, Sum6Kes, 6);
 key_last_period!(c12_t_key_last_period_7, Sum7Kes, 7);
 
 macro_rules! key_period_and_len {
